@@ -40,6 +40,7 @@ class Tracer:
         self.db = self.st = None
         self.roles = {}
         self.log = []          # [(tid, {oid: val})] what the traced commits wrote (harness knowledge)
+        self.fresh_cache = set()   # model instances whose next poll follows a resetCaches() re-open
 
     # ---- set-up
     def attach(self, db, st):
@@ -96,6 +97,9 @@ class Tracer:
                 return
             if isinstance(phase, tuple) and kind == 'release' and role == inst._lock.role:
                 _, k, s = phase
+                if self.idx(inst) in self.fresh_cache:      # the model empties the cache via "inval=all"
+                    self.fresh_cache.discard(self.idx(inst))
+                    s = 'all'
                 self.expect[k] = 'start=%d inval=%s' % (u64(inst._start), s)
                 c['poll'] = (inst, 'done')
                 return
@@ -202,11 +206,16 @@ class Tracer:
         if self.idx(inst) is not None:
             self.c(t)['commit'] = dict(i=self.idx(inst), phase='start')
 
-    def pre_undo(self, t, tid):
-        self.c(t)['undo_tid'] = tid
+    def pre_undo(self, t, tids):
+        self.c(t)['undo_tids'] = list(tids)
 
     def undo_tpc_begin(self, t):
-        self.c(t)['commit'] = dict(i='x', phase='start', undo_tid=self.c(t).get('undo_tid'))
+        self.c(t)['commit'] = dict(i='x', phase='start', undo_tids=self.c(t).get('undo_tids') or [])
+
+    def undone_value(self, oid, tids):
+        """value `oid` gets back: the one before the (earliest) undone transaction that wrote it"""
+        written = [t for t, w in self.log if t in tids and oid in w]
+        return self.value_before(oid, min(written)) if written else None
 
     def value_before(self, oid, tid):
         v = None
@@ -222,8 +231,7 @@ class Tracer:
             if cm['i'] == 'x':          # transactional undo: the undone oids get their earlier values back
                 w = {}
                 for o in sorted(u64(x) for x in oids):
-                    v = self.value_before(o, cm['undo_tid'])
-                    w[o] = v
+                    w[o] = self.undone_value(o, cm['undo_tids'])
                 cm['writes'] = w
                 self.emit('store [%s]' % ','.join('%d:%s' % (o, '-' if v is None else v)
                                                   for o, v in sorted(w.items())), None)
@@ -313,6 +321,10 @@ def installed(tr):
     def open(self, transaction_manager=None, delegate=True):
         t = tname()
         if t is not None and tr.idx(self._storage) is not None:
+            if self._reset_counter != C.global_reset_counter:
+                # resetCaches(): this open starts a new, empty cache = everything invalidated
+                tr.emit('invalall %d' % tr.idx(self._storage), 'ok')
+                tr.fresh_cache.add(tr.idx(self._storage))
             tr.emit('open %d' % tr.idx(self._storage), 'ok')
         return o_open(self, transaction_manager, delegate)
 
